@@ -285,6 +285,7 @@ Definition op_wf (o : op) : Prop :=
   match o with
   | Add g => gid g <> null_id
   | ForkSwitch _ gs => Forall (fun g => gid g <> null_id) gs
+  | SetIndexRow _ _ => False          (* wrong sqlite rows: see refresh_walk_lookup, not the invariant *)
   | _ => True
   end.
 
@@ -292,7 +293,7 @@ Definition op_wf (o : op) : Prop :=
 Definition no_loss (o : op) : Prop := match o with DropIndex _ => False | _ => True end.
 
 Lemma op_eq_restart o : o = Restart \/ o <> Restart.
-Proof. destruct o; [right|right|right|left|right|right]; congruence. Qed.
+Proof. destruct o; [right|right|right|left|right|right|right]; congruence. Qed.
 
 Section Preservation.
 Variable g0 : group.
@@ -447,7 +448,7 @@ Lemma invp_step_core s o :
   InvP P g0 s -> op_wf o -> op_ok o -> no_loss o -> o <> Restart ->
   InvP P g0 (fst (step true g0 s o)) /\ snd (step true g0 s o) < 98.
 Proof.
-  intros HI Hwf Hok Hnl Hnr. destruct o as [g| |h| |h gs|ids]; cbn [step].
+  intros HI Hwf Hok Hnl Hnr. destruct o as [g| |h| |h gs|ids|i0 h0]; cbn [step]; [| | | | | |destruct Hwf].
   - split; [apply inv_add; assumption|].
     unfold add_group. destruct (has s (gid g)); [cbn; lia|].
     destruct (negb (has s (gparent g))); [cbn; lia|].
@@ -532,14 +533,16 @@ Qed.
 
 (* a restart repairs the sqlite index: from the weak invariant it terminates, does not panic, changes
    nothing but the sqlite rows, and gives the full invariant *)
-Lemma restart_heals s : InvW g0 s ->
-  exists q, boot (st s) g0 = BootOk (set_sq s q) /\ Inv g0 (set_sq s q).
+(* the list-level form: for the list l that represents s, a restart replaces the sqlite rows by a
+   complete set for l and touches nothing else *)
+Lemma restart_heals_l s l :
+  chain g0 l -> hd_error l = Some (last s) -> count s = N.of_nat (length l) ->
+  gcnt (st s) = count s -> gcur (st s) = Some (gid (last s)) ->
+  (forall x, groups (st s) x = lookup l x) -> SqSub l (sq (st s)) ->
+  exists q, boot (st s) g0 = BootOk (set_sq s q) /\ SqOk l q.
 Proof.
-  intros (l & Hc & Hhd & Hn & Hgc & Hcur & Hg & Hi & Hsq).
+  intros Hc Hhd Hn Hgc Hcur Hg Hsq.
   pose proof (chain_nodup _ _ Hc) as Hnd.
-  assert (Hkeep : forall q, SqOk l q -> Inv g0 (set_sq s q)).
-  { intros q Hq. exists l. unfold set_sq. cbn [st count last groups idx gcur gcnt sq].
-    repeat (split; [assumption|]). exact Hq. }
   assert (exists r, l = last s :: r) as [r El].
   { destruct l as [|g r]; [destruct Hc|]. cbn [hd_error] in Hhd. injection Hhd as ->.
     eexists; reflexivity. }
@@ -554,7 +557,7 @@ Proof.
   destruct (N.eqb_spec (sq_count (sq (st s))) (gcnt (st s))) as [E|E].
   - exists (sq (st s)). split.
     + rewrite <- Est. destruct s as [[a b c d e] n lg]. reflexivity.
-    + apply Hkeep. apply sqsub_full; [exact Hsq|]. unfold sq_count in E. lia.
+    + apply sqsub_full; [exact Hsq|]. unfold sq_count in E. lia.
   - destruct (refresh_walk_spec l (groups (st s)) Hc Hg r (last s) (sq (st s))
                 (S (S (N.to_nat (gcnt (st s))))))
       as (q' & E' & HS' & _ & Hall).
@@ -563,7 +566,16 @@ Proof.
     + lia.
     + exact Hsq.
     + rewrite E'. exists q'. split; [rewrite Est; reflexivity|].
-      apply Hkeep. split; [exact HS'|]. rewrite El. exact Hall.
+      split; [exact HS'|]. rewrite El. exact Hall.
+Qed.
+
+Lemma restart_heals s : InvW g0 s ->
+  exists q, boot (st s) g0 = BootOk (set_sq s q) /\ Inv g0 (set_sq s q).
+Proof.
+  intros (l & Hc & Hhd & Hn & Hgc & Hcur & Hg & Hi & Hsq).
+  destruct (restart_heals_l s l Hc Hhd Hn Hgc Hcur Hg Hsq) as (q & E & Hq).
+  exists q. split; [exact E|]. exists l. unfold set_sq. cbn [st count last groups idx gcur gcnt sq].
+  repeat (split; [assumption|]). exact Hq.
 Qed.
 
 Lemma set_sq_same s : set_sq s (sq (st s)) = s.
@@ -590,7 +602,7 @@ Proof.
   intros HI Hwf. destruct (op_eq_restart o) as [->|Hne].
   - cbn [step]. destruct (restart_heals s HI) as (q & -> & HI'). cbn [fst snd].
     split; [apply inv_invw; exact HI'|lia].
-  - destruct o as [g| |h| |h gs|ids];
+  - destruct o as [g| |h| |h gs|ids|i0 h0]; [| | | | | |destruct Hwf];
       try (apply (invp_step_core SqSub (fun _ => True)); try assumption; try exact I;
            try apply op_ok_true;
            [intros; exact I|intros l g' q _ _; apply sqsub_save|intros g' l q _; apply sqsub_remove]).
@@ -642,7 +654,7 @@ Qed.
 
 (* where no group is removed the original and the repaired code are the same function *)
 Definition no_remove (o : op) : Prop :=
-  match o with RemoveLast | RemoveFrom _ | ForkSwitch _ _ => False | _ => True end.
+  match o with RemoveLast | RemoveFrom _ | ForkSwitch _ _ | SetIndexRow _ _ => False | _ => True end.
 
 Lemma step_fx_irrelevant s o : no_remove o -> step false g0 s o = step true g0 s o.
 Proof. destruct o; cbn; tauto. Qed.
